@@ -317,22 +317,22 @@ class Explorer:
             self.n_unknown += 1
         return r
 
-    def explore(self, harness, on_path=None, fuel=200000):
-        """harness(ctx) -> outcome. Returns list of PathResult."""
-        prefix = []          # list of bool decisions
-        flip_from = 0
+    def explore(self, harness, on_path=None, fuel=200000, pending=None, split_at=None, budget=None):
+        """harness(ctx) -> outcome. Stateless DFS over branch decisions.
+        pending: initial list of decision prefixes (default: the root).
+        split_at: stop as soon as that many prefixes are pending and return them (breadth-first phase used to
+        distribute subtrees over worker processes)."""
         results = []
-        self.solver.reset()
-        self.level = 0
-        # stack of (decision index) with alternatives pending
-        pending = []         # list of (prefix tuple) to explore  (LIFO)
-        pending.append([])
+        pending = [[]] if pending is None else list(pending)
         while pending:
+            if split_at is not None and len(pending) >= split_at:
+                break
+            if budget is not None and len(results) >= budget:
+                break
             if len(results) >= self.max_paths:
                 raise Inconclusive('path bound %d exceeded' % self.max_paths)
-            prefix = pending.pop()
+            prefix = pending.pop(0) if split_at is not None else pending.pop()
             ctx = Ctx(self, prefix, fuel)
-            # solver state: rebuild from scratch for each path (simple and robust)
             self.solver.reset()
             res = PathResult()
             try:
@@ -360,6 +360,7 @@ class Explorer:
                 if on_path:
                     on_path(res, ctx)
         self.paths = results
+        self.pending = pending
         return results
 
 
@@ -425,24 +426,28 @@ class Ctx:
             return False
         k = len(self.decisions)
         if k < len(self.prefix):
+            # replay: every symbolic branch call consumes one recorded entry, so the replay is exact.
+            # entry: 1/0 = forked decision (constraint added) ; 3/2 = outcome implied by the path condition
             d = self.prefix[k]
             self.decisions.append(d)
-            self.add(cond if d else z3.Not(cond))
-            return d
+            if d in (0, 1):
+                self.add(cond if d == 1 else z3.Not(cond))
+            return bool(d & 1)
         # frontier
         rt = self.ex.check(cond)
         rf = self.ex.check(z3.Not(cond))
         t_ok = rt != z3.unsat
         f_ok = rf != z3.unsat
         if t_ok and f_ok:
-            self.alternatives.append(self.decisions + [False])
-            self.decisions.append(True)
+            self.alternatives.append(self.decisions + [0])
+            self.decisions.append(1)
             self.add(cond)
             return True
         if t_ok:
-            # not a real decision: record the implied fact (keeps pc precise without a fork)
+            self.decisions.append(3)
             return True
         if f_ok:
+            self.decisions.append(2)
             return False
         raise PathAbort()
 
@@ -687,7 +692,7 @@ class Interp:
                 f = float(payload)
             except ValueError:
                 raise Unsupported('float const ' + payload)
-            return F32('fin', z3.IntVal(int(round(f * 1000))))
+            return F32('fin', z3.BitVecVal(int(round(f * 1000)), 32))
         if kind == 'zst':
             t = payload
             if t.startswith('{closure@'):
@@ -896,7 +901,7 @@ class Interp:
     def binop(self, op, a, b, ta=None):
         signed = ta in SIGNED if ta else False
         if isinstance(a, F32) or isinstance(b, F32):
-            raise Unsupported('float binop ' + op)
+            return self.f32_binop(op, a, b)
         if z3.is_bool(a) and z3.is_bool(b):
             if op == 'Eq':
                 return z3.simplify(a == b)
@@ -963,6 +968,22 @@ class Interp:
         if op == 'Cmp':
             raise Unsupported('three-way Cmp')
         raise Unsupported('binop ' + op)
+
+    def f32_binop(self, op, a, b):
+        if not (isinstance(a, F32) and isinstance(b, F32)):
+            raise Unsupported('mixed float binop')
+        if op not in ('Lt', 'Le', 'Gt', 'Ge', 'Eq', 'Ne'):
+            raise Unsupported('float arithmetic ' + op)
+        if a.cls == 'nan' or b.cls == 'nan':
+            return z3.BoolVal(op == 'Ne')
+        rank = {'ninf': -1, 'fin': 0, 'inf': 1}
+        if a.cls != 'fin' or b.cls != 'fin':
+            x, y = rank[a.cls], rank[b.cls]
+            if a.cls == b.cls == 'fin':
+                pass
+            return z3.BoolVal({'Lt': x < y, 'Le': x <= y, 'Gt': x > y, 'Ge': x >= y, 'Eq': x == y, 'Ne': x != y}[op])
+        x, y = a.milli, b.milli
+        return z3.simplify({'Lt': x < y, 'Le': x <= y, 'Gt': x > y, 'Ge': x >= y, 'Eq': x == y, 'Ne': x != y}[op])
 
     def cast(self, frame, rv):
         v = self.eval_operand(frame, rv[1])
@@ -1248,17 +1269,31 @@ class Interp:
     def _pick_trait(self, cands, info, args):
         if len(cands) == 1:
             return cands[0]
-        # disambiguate From<X> impls etc. by the trait's generic argument
-        tt = info.get('trait_text') or ''
-        for c in cands:
-            impl = getattr(c, 'impl', None)
-            if impl and impl.trait_args and impl.trait_args.replace(' ', '') in tt.replace(' ', ''):
-                return c
-        if args:
-            rt, _ = self.runtime_type(args[0])
-            for c in cands:
-                if c.args and base_type_name(c.args[0][1]) == rt:
-                    return c
+        # disambiguate From<X> / PartialOrd<X> impls by the trait's generic argument
+        tt = (info.get('trait_text') or '').replace(' ', '')
+        targ = ''
+        if '<' in tt:
+            k = tt.index('<')
+            targ = tt[k + 1:find_matching(tt, k)]
+        exact = [c for c in cands if getattr(c, 'impl', None) is not None and c.impl.trait_args.replace(' ', '') == targ]
+        if len(exact) == 1:
+            return exact[0]
+        pool = exact or cands
+        # by run-time types of the arguments
+        best = []
+        for c in pool:
+            ok = True
+            for (idx, pty), a in zip(c.args, args):
+                rt, _ = self.runtime_type(a)
+                bt = base_type_name(pty)
+                if rt in ('BitVecRef', 'BitVecNumRef', 'BoolRef'):
+                    continue
+                if bt != rt and not (bt == 'Error' and rt == 'IoError'):
+                    ok = False
+            if ok:
+                best.append(c)
+        if len(best) == 1:
+            return best[0]
         raise Unsupported('ambiguous trait impl for ' + info['text'])
 
     def call_callable(self, f, args):
